@@ -1,6 +1,790 @@
-//! C16 — implementation side of the correspondence (stub).
+//! C16 — ordered reliable link: implementation side of the correspondence + oracle inputs.
+//!
+//! Real `ActorWrapper<Scr>` actors run under the real `ActorModel` (duplicating / non-duplicating / ordered
+//! network, lossy or not). The harness walks the reachable state graph itself through the public `Model`
+//! trait (`init_states`, `actions`, `next_state`), bounded by `within_boundary` (network.len() < B) and a
+//! per-scenario state cap, and at every reachable (state, action) records
+//!   * the successor the implementation computed (or `ignored` / `panic`)       -> `orl-succ` (model: `implNext`)
+//!   * what the wrapper's handler itself returned (Cow borrowed/owned, commands) -> `orl-h`   (model: `onMsg`/`onTimeout`)
+//!   * the state with the ghost logs                                             -> `o-orl`   (oracle)
+//! The wrapper's private fields are read from the `Debug` rendering of the state. The ghost logs (what the
+//! wrapped actor was handed, what it sent) come from a tap inside the wrapped actor `Scr`, so they also see
+//! messages the wrapped actor ignores (no-op).
 use srh::out::*;
+use srh::rng::Rng;
+use stateright::actor::ordered_reliable_link::{ActorWrapper, MsgWrapper, TimerWrapper};
+use stateright::actor::{
+    model_timeout, Actor, ActorModel, ActorModelAction, ActorModelState, Command, Id, LossyNetwork,
+    Network, Out as AOut,
+};
+use stateright::Model;
+use std::borrow::Cow;
+use std::cell::RefCell;
+use std::collections::{BTreeMap, HashSet, VecDeque};
+use std::fmt;
+use std::panic::{catch_unwind, AssertUnwindSafe};
+use std::sync::atomic::{AtomicUsize, Ordering};
+use std::sync::Mutex;
+
+// ------------------------------------------------------------------------------------------------
+// the wrapped actor: a scripted sender / logging receiver
+// ------------------------------------------------------------------------------------------------
+
+#[derive(Clone, PartialEq, Eq, Hash, PartialOrd, Ord)]
+struct M(u8);
+impl fmt::Debug for M {
+    fn fmt(&self, f: &mut fmt::Formatter<'_>) -> fmt::Result {
+        write!(f, "{}", self.0)
+    }
+}
+/// what the wrapped actor logged (only for messages it does not ignore)
+#[derive(Clone, PartialEq, Eq, Hash)]
+struct Log(Vec<(usize, u8)>);
+impl fmt::Debug for Log {
+    fn fmt(&self, f: &mut fmt::Formatter<'_>) -> fmt::Result {
+        write!(f, "[")?;
+        for (s, m) in &self.0 {
+            write!(f, " {} {}", s, m)?;
+        }
+        write!(f, " ]")
+    }
+}
+#[derive(Clone, Debug, PartialEq, Eq, Hash)]
+enum Cmd {
+    Send(usize, u8),
+    /// 0 SetTimer, 1 CancelTimer, 2 ChooseRandom: `todo!()` in the link
+    Unsupported(u8),
+}
+#[derive(Clone, Debug, PartialEq, Eq, Hash)]
+struct Rule {
+    on: u8,
+    from: Option<usize>,
+    /// true: append to the log (`to_mut`); false: leave the state borrowed (with no cmds this is the no-op)
+    log: bool,
+    cmds: Vec<Cmd>,
+}
+#[derive(Clone, Debug, PartialEq, Eq, Hash, Default)]
+struct Scr {
+    start: Vec<Cmd>,
+    rules: Vec<Rule>,
+}
+
+#[derive(Clone, Debug)]
+enum Ev {
+    Handed(usize, usize, u8),
+    Sent(usize, usize, u8),
+}
+thread_local! { static TAP: RefCell<Vec<Ev>> = RefCell::new(Vec::new()); }
+fn tap(e: Ev) {
+    TAP.with(|t| t.borrow_mut().push(e));
+}
+fn tap_take() -> Vec<Ev> {
+    TAP.with(|t| std::mem::take(&mut *t.borrow_mut()))
+}
+
+fn emit(cmds: &[Cmd], id: Id, o: &mut AOut<Scr>) {
+    for c in cmds {
+        match c {
+            Cmd::Send(d, m) => {
+                tap(Ev::Sent(usize::from(id), *d, *m));
+                o.send(Id::from(*d), M(*m));
+            }
+            Cmd::Unsupported(0) => o.set_timer(0, model_timeout()),
+            Cmd::Unsupported(1) => o.cancel_timer(0),
+            Cmd::Unsupported(_) => o.choose_random("k", vec![0]),
+        }
+    }
+}
+
+impl Actor for Scr {
+    type Msg = M;
+    type State = Log;
+    type Timer = u8;
+    type Random = u8;
+    fn on_start(&self, id: Id, o: &mut AOut<Self>) -> Log {
+        emit(&self.start, id, o);
+        Log(Vec::new())
+    }
+    fn on_msg(&self, id: Id, state: &mut Cow<Log>, src: Id, msg: M, o: &mut AOut<Self>) {
+        tap(Ev::Handed(usize::from(id), usize::from(src), msg.0));
+        let rule = self.rules.iter().find(|r| r.on == msg.0 && r.from.map_or(true, |f| f == usize::from(src)));
+        match rule {
+            Some(r) => {
+                if r.log {
+                    state.to_mut().0.push((usize::from(src), msg.0));
+                }
+                emit(&r.cmds, id, o);
+            }
+            None => state.to_mut().0.push((usize::from(src), msg.0)),
+        }
+    }
+}
+
+// ------------------------------------------------------------------------------------------------
+// scenarios
+// ------------------------------------------------------------------------------------------------
+
+#[derive(Clone, Copy, Debug, PartialEq, Eq, Hash)]
+enum Kind {
+    Dup,
+    NonDup,
+    Ord,
+}
+#[derive(Clone, Debug, Hash)]
+struct Scn {
+    kind: Kind,
+    lossy: bool,
+    actors: Vec<Scr>,
+    bound: usize,
+}
+type W = ActorWrapper<Scr>;
+type St = ActorModelState<W, ()>;
+type Act = ActorModelAction<MsgWrapper<M>, TimerWrapper<u8>, u8>;
+
+fn cmds_sx(cs: &[Cmd]) -> String {
+    let v: Vec<String> = cs
+        .iter()
+        .map(|c| match c {
+            Cmd::Send(d, m) => format!("(s {} {})", d, m),
+            Cmd::Unsupported(_) => "u".to_string(),
+        })
+        .collect();
+    format!("({})", v.join(" "))
+}
+impl Scn {
+    fn sx(&self) -> String {
+        let k = match self.kind {
+            Kind::Dup => "dup",
+            Kind::NonDup => "nondup",
+            Kind::Ord => "ord",
+        };
+        let actors: Vec<String> = self
+            .actors
+            .iter()
+            .map(|a| {
+                let rules: Vec<String> = a
+                    .rules
+                    .iter()
+                    .map(|r| {
+                        format!(
+                            "({} {} {} {})",
+                            r.on,
+                            r.from.map_or("any".to_string(), |f| f.to_string()),
+                            if r.log { "t" } else { "f" },
+                            cmds_sx(&r.cmds)
+                        )
+                    })
+                    .collect();
+                format!("({} ({}))", cmds_sx(&a.start), rules.join(" "))
+            })
+            .collect();
+        format!("({} {} {} ({}))", k, if self.lossy { "t" } else { "f" }, self.actors.len(), actors.join(" "))
+    }
+    fn model(&self) -> ActorModel<W, usize, ()> {
+        let net = match self.kind {
+            Kind::Dup => Network::new_unordered_duplicating([]),
+            Kind::NonDup => Network::new_unordered_nonduplicating([]),
+            Kind::Ord => Network::new_ordered([]),
+        };
+        ActorModel::new(self.bound, ())
+            .actors(self.actors.iter().cloned().map(ActorWrapper::with_default_timeout))
+            .init_network(net)
+            .lossy_network(if self.lossy { LossyNetwork::Yes } else { LossyNetwork::No })
+            .within_boundary(|b, s| s.network.len() < *b)
+    }
+}
+
+// ------------------------------------------------------------------------------------------------
+// reading the implementation state
+// ------------------------------------------------------------------------------------------------
+
+#[derive(Clone, Debug, Default, PartialEq, Eq, Hash)]
+struct Ghost {
+    handed: Vec<(usize, u64, u8)>,
+    sent: Vec<(usize, u8)>,
+}
+
+/// all unsigned numbers in `s`
+fn nums(s: &str) -> Vec<u64> {
+    let mut v = Vec::new();
+    let mut cur: Option<u64> = None;
+    for c in s.chars() {
+        if let Some(d) = c.to_digit(10) {
+            cur = Some(cur.unwrap_or(0) * 10 + d as u64);
+        } else if let Some(x) = cur.take() {
+            v.push(x);
+        }
+    }
+    if let Some(x) = cur {
+        v.push(x);
+    }
+    v
+}
+/// text of the `{...}` that follows `name: ` (maps print without nested braces for our message type)
+fn section<'a>(dbg: &'a str, name: &str) -> &'a str {
+    let key = format!("{}: {{", name);
+    let i = dbg.find(&key).unwrap_or_else(|| panic!("field {} not found in {}", name, dbg)) + key.len();
+    let j = dbg[i..].find('}').expect("closing brace") + i;
+    &dbg[i..j]
+}
+fn sorted_list(mut items: Vec<String>) -> String {
+    items.sort();
+    format!("({})", items.join(" "))
+}
+fn plain_list(items: Vec<String>) -> String {
+    format!("({})", items.join(" "))
+}
+/// canonical text of one wrapper state (from its Debug rendering) + ghost logs
+fn node_sx<S: fmt::Debug>(state: &S, g: &Ghost) -> String {
+    let dbg = format!("{:?}", state);
+    let ns = nums(section(&dbg, "next_send_seqs"));
+    let pa = nums(section(&dbg, "msgs_pending_ack"));
+    let ld = nums(section(&dbg, "last_delivered_seqs"));
+    let wi = dbg.find("wrapped_state: ").expect("wrapped_state") + "wrapped_state: ".len();
+    let ws = nums(&dbg[wi..]);
+    assert!(ns.len() % 2 == 0 && pa.len() % 3 == 0 && ld.len() % 2 == 0 && ws.len() % 2 == 0, "unexpected Debug shape: {}", dbg);
+    format!(
+        "({} {} {} {} {} {})",
+        sorted_list(ns.chunks(2).map(|c| format!("({} {})", c[0], c[1])).collect()),
+        sorted_list(pa.chunks(3).map(|c| format!("({} {} {})", c[0], c[1], c[2])).collect()),
+        sorted_list(ld.chunks(2).map(|c| format!("({} {})", c[0], c[1])).collect()),
+        plain_list(ws.chunks(2).map(|c| format!("({} {})", c[0], c[1])).collect()),
+        plain_list(g.handed.iter().map(|(s, q, m)| format!("({} {} {})", s, q, m)).collect()),
+        plain_list(g.sent.iter().map(|(d, m)| format!("({} {})", d, m)).collect()),
+    )
+}
+fn env_sx(m: &MsgWrapper<M>) -> String {
+    match m {
+        MsgWrapper::Deliver(q, m) => format!("D {} {}", q, m.0),
+        MsgWrapper::Ack(q) => format!("A {}", q),
+    }
+}
+fn packet_sx(src: Id, dst: Id, m: &MsgWrapper<M>) -> String {
+    format!("({} {} {})", usize::from(src), usize::from(dst), env_sx(m))
+}
+/// all in-flight envelopes in the implementation's own iteration order
+fn net_items(net: &Network<MsgWrapper<M>>) -> Vec<String> {
+    net.iter_all().map(|e| packet_sx(e.src, e.dst, e.msg)).collect()
+}
+/// what the harness explores: implementation state + ghost logs per actor
+#[derive(Clone)]
+struct XS {
+    st: St,
+    ghost: Vec<Ghost>,
+}
+impl XS {
+    /// canonical text sent to the model (network as a sorted multiset)
+    fn sx(&self) -> String {
+        let nodes: Vec<String> = self.st.actor_states.iter().zip(&self.ghost).map(|(s, g)| node_sx(&**s, g)).collect();
+        format!("(({}) {})", nodes.join(" "), sorted_list(net_items(&self.st.network)))
+    }
+    /// identity for the harness's own visited set: additionally the per-flow order of an ordered network
+    fn key(&self) -> String {
+        match &self.st.network {
+            Network::Ordered(_) => format!("{} {}", self.sx(), net_items(&self.st.network).join(" ")),
+            _ => self.sx(),
+        }
+    }
+}
+fn action_sx(a: &Act) -> String {
+    match a {
+        ActorModelAction::Deliver { src, dst, msg } => format!("(dl {})", packet_sx(*src, *dst, msg)),
+        ActorModelAction::Drop(e) => format!("(dr {})", packet_sx(e.src, e.dst, &e.msg)),
+        ActorModelAction::Timeout(id, TimerWrapper::Network) => format!("(to {})", usize::from(*id)),
+        ActorModelAction::Timeout(id, TimerWrapper::User(t)) => format!("(user-timeout {} {})", usize::from(*id), t),
+        ActorModelAction::Crash(id) => format!("(crash {})", usize::from(*id)),
+        ActorModelAction::SelectRandom { actor, .. } => format!("(random {})", usize::from(*actor)),
+    }
+}
+fn apply_tap(ghost: &mut [Ghost], evs: Vec<Ev>, seq: Option<u64>) {
+    for e in evs {
+        match e {
+            Ev::Handed(id, src, m) => ghost[id].handed.push((src, seq.expect("handed outside a Deliver"), m)),
+            Ev::Sent(id, dst, m) => ghost[id].sent.push((dst, m)),
+        }
+    }
+}
+fn ocmds_sx(out: &AOut<W>, sort_sends: bool) -> String {
+    let mut timers = Vec::new();
+    let mut sends = Vec::new();
+    for c in out.iter() {
+        match c {
+            Command::SetTimer(TimerWrapper::Network, _) => timers.push("T".to_string()),
+            Command::Send(dst, m) => sends.push(format!("({} {})", usize::from(*dst), env_sx(m))),
+            other => sends.push(format!("unexpected:{:?}", other).replace(' ', "_")),
+        }
+    }
+    // SetTimer always comes first in the wrapper's handlers; check that instead of assuming it
+    let first_ok = out.iter().position(|c| matches!(c, Command::SetTimer(..))).map_or(true, |i| i == 0);
+    if !first_ok {
+        timers.push("timer-not-first".into());
+    }
+    if sort_sends {
+        sends.sort();
+    }
+    timers.extend(sends);
+    format!("({})", timers.join(" "))
+}
+
+// ------------------------------------------------------------------------------------------------
+// exploring one scenario
+// ------------------------------------------------------------------------------------------------
+
+#[derive(Default)]
+struct Res {
+    m: Vec<(String, String)>,
+    o: Vec<String>,
+    v: Vec<(String, String)>,
+    stats: BTreeMap<String, u64>,
+    distinct: Vec<u64>,
+    sample: Option<String>,
+}
+impl Res {
+    fn stat(&mut self, k: &str) {
+        *self.stats.entry(k.to_string()).or_insert(0) += 1;
+    }
+    fn stat_n(&mut self, k: &str, n: u64) {
+        *self.stats.entry(k.to_string()).or_insert(0) += n;
+    }
+}
+
+fn hash_str(s: &str) -> u64 {
+    use std::hash::{Hash, Hasher};
+    let mut h = std::collections::hash_map::DefaultHasher::new();
+    s.hash(&mut h);
+    h.finish()
+}
+
+fn heads_sx(scn: &Scn, st: &St) -> String {
+    match scn.kind {
+        Kind::Ord => plain_list(st.network.iter_deliverable().map(|e| packet_sx(e.src, e.dst, e.msg)).collect()),
+        _ => "-".to_string(),
+    }
+}
+
+fn explore(scn: &Scn, cap: usize) -> Res {
+    let mut res = Res::default();
+    let ssx = scn.sx();
+    let model = scn.model();
+    let n = scn.actors.len();
+    tap_take();
+    let init = catch_unwind(AssertUnwindSafe(|| model.init_states()));
+    let evs = tap_take();
+    let init = match init {
+        Err(_) => {
+            res.m.push((format!("orl-init {}", ssx), "panic".into()));
+            res.stat("init-panic (unsupported command in on_start)");
+            return res;
+        }
+        Ok(v) => v,
+    };
+    assert_eq!(init.len(), 1);
+    let mut ghost = vec![Ghost::default(); n];
+    apply_tap(&mut ghost, evs, None);
+    let x0 = XS { st: init.into_iter().next().unwrap(), ghost };
+    res.m.push((format!("orl-init {}", ssx), x0.sx()));
+    // the network timer must be set for every actor, and nothing else
+    let mut seen: HashSet<String> = HashSet::new();
+    let mut seen_h: HashSet<String> = HashSet::new();
+    let mut seen_oob: HashSet<String> = HashSet::new();
+    let mut queue: VecDeque<XS> = VecDeque::new();
+    let in_b = |x: &XS| Model::within_boundary(&model, &x.st);
+    let mut flags: HashSet<&'static str> = HashSet::new();
+    if in_b(&x0) {
+        seen.insert(x0.key());
+        queue.push_back(x0);
+    } else {
+        res.stat("init-out-of-boundary");
+        res.o.push(format!("o-orl {}", x0.sx()));
+    }
+    let mut capped = false;
+    while let Some(x) = queue.pop_front() {
+        let xsx = x.sx();
+        res.stat("states");
+        res.o.push(format!("o-orl {}", xsx));
+        if x.ghost.iter().any(|g| !g.sent.is_empty()) {
+            res.distinct.push(hash_str(&x.key()));
+        }
+        let mut acts: Vec<Act> = Vec::new();
+        model.actions(&x.st, &mut acts);
+        let mut acts: Vec<(String, Act)> = acts.into_iter().map(|a| (action_sx(&a), a)).collect();
+        acts.sort_by(|a, b| a.0.cmp(&b.0));
+        let mut outs: Vec<String> = Vec::new();
+        for (asx, a) in acts {
+            res.stat("transitions");
+            // ---- the wrapper's handler, called directly -----------------------------------------
+            let (id, ev_sx, seq): (usize, String, Option<u64>) = match &a {
+                ActorModelAction::Deliver { src, dst, msg } => (
+                    usize::from(*dst),
+                    format!("(m {} ({}))", usize::from(*src), env_sx(msg)),
+                    match msg {
+                        MsgWrapper::Deliver(q, _) => Some(*q),
+                        _ => None,
+                    },
+                ),
+                ActorModelAction::Timeout(id, _) => (usize::from(*id), "t".to_string(), None),
+                _ => (usize::MAX, String::new(), None),
+            };
+            if id != usize::MAX {
+                let before = node_sx(&*x.st.actor_states[id], &x.ghost[id]);
+                let hreq = format!("orl-h {} {} {} {}", ssx, id, before, ev_sx);
+                if seen_h.insert(hreq.clone()) {
+                    let actor = &model.actors[id];
+                    let last = &*x.st.actor_states[id];
+                    tap_take();
+                    let r = catch_unwind(AssertUnwindSafe(|| {
+                        let mut cow = Cow::Borrowed(last);
+                        let mut o = AOut::new();
+                        match &a {
+                            ActorModelAction::Deliver { src, msg, .. } => actor.on_msg(Id::from(id), &mut cow, *src, msg.clone(), &mut o),
+                            ActorModelAction::Timeout(_, t) => actor.on_timeout(Id::from(id), &mut cow, t, &mut o),
+                            _ => unreachable!(),
+                        }
+                        let owned = match cow {
+                            Cow::Borrowed(_) => None,
+                            Cow::Owned(s) => Some(s),
+                        };
+                        (owned, o)
+                    }));
+                    let evs = tap_take();
+                    let exp = match r {
+                        Err(_) => "panic".to_string(),
+                        Ok((owned, o)) => {
+                            let mut gs = x.ghost.clone();
+                            apply_tap(&mut gs, evs, seq);
+                            let is_timeout = matches!(a, ActorModelAction::Timeout(..));
+                            match owned {
+                                None => {
+                                    if gs[id] != x.ghost[id] {
+                                        // wrapped actor was called although the wrapper left its state borrowed
+                                        res.v.push(("borrowed-but-handed".into(), hreq.clone()));
+                                    }
+                                    format!("(b {})", ocmds_sx(&o, is_timeout))
+                                }
+                                Some(s) => format!("(o {} {})", node_sx(&s, &gs[id]), ocmds_sx(&o, is_timeout)),
+                            }
+                        }
+                    };
+                    res.m.push((hreq, exp));
+                    res.stat("handler-calls (distinct node state x event)");
+                }
+            }
+            // ---- the transition through ActorModel ----------------------------------------------
+            classify(scn, &x, &a, &mut res, &mut flags);
+            tap_take();
+            let r = catch_unwind(AssertUnwindSafe(|| model.next_state(&x.st, a.clone())));
+            let evs = tap_take();
+            let out = match r {
+                Err(_) => {
+                    res.stat("next-panic (unsupported command from the wrapped actor)");
+                    flags.insert("panic");
+                    "panic".to_string()
+                }
+                Ok(None) => {
+                    res.stat("next-ignored (no-op)");
+                    if evs.iter().any(|e| matches!(e, Ev::Handed(..))) {
+                        res.v.push(("ignored-but-handed".into(), format!("{} {} {}", ssx, xsx, asx)));
+                    }
+                    "ignored".to_string()
+                }
+                Ok(Some(st2)) => {
+                    let mut ghost = x.ghost.clone();
+                    apply_tap(&mut ghost, evs, seq);
+                    let y = XS { st: st2, ghost };
+                    // direct law: only the acting actor's state may change
+                    for j in 0..n {
+                        if j != id && *y.st.actor_states[j] != *x.st.actor_states[j] {
+                            res.v.push(("bystander-changed".into(), format!("{} {} {}", ssx, xsx, asx)));
+                        }
+                    }
+                    let ysx = y.sx();
+                    if in_b(&y) {
+                        let k = y.key();
+                        if !seen.contains(&k) {
+                            if seen.len() < cap {
+                                seen.insert(k);
+                                queue.push_back(y);
+                            } else {
+                                capped = true;
+                            }
+                        }
+                    } else {
+                        res.stat("successors-out-of-boundary (compared, oracle run, not expanded)");
+                        if seen_oob.insert(ysx.clone()) {
+                            res.o.push(format!("o-orl {}", ysx));
+                        }
+                    }
+                    ysx
+                }
+            };
+            outs.push(format!("({} {})", asx, out));
+        }
+        res.m.push((format!("orl-succ {} {} {}", ssx, xsx, heads_sx(scn, &x.st)), format!("({})", outs.join(" "))));
+    }
+    if capped {
+        res.stat("scenarios-capped");
+    }
+    res.stat("scenarios");
+    res.stat(&format!("scenarios-kind-{:?}{}", scn.kind, if scn.lossy { "-lossy" } else { "" }));
+    res.stat(&format!("scenarios-actors-{}", n));
+    if scn.actors.iter().any(|a| {
+        let mut peers: Vec<usize> = a.start.iter().filter_map(|c| if let Cmd::Send(d, _) = c { Some(*d) } else { None }).collect();
+        peers.sort();
+        peers.dedup();
+        peers.len() >= 2
+    }) {
+        res.stat("scenarios-with-a-sender-to-2-peers");
+    }
+    let nstart: usize = scn.actors.iter().map(|a| a.start.len()).sum();
+    res.stat(&format!("scenarios-start-messages-{}", nstart));
+    for f in &flags {
+        res.stat(&format!("scenarios-exercising-{}", f));
+    }
+    let nstates = seen.len();
+    res.stat_n("states-max-per-scenario-sum", nstates as u64);
+    res.sample = Some(format!("{} bound<{} -> {} states", ssx, scn.bound, nstates));
+    res
+}
+
+/// input-distribution counters: which protocol situations a transition exercises
+fn classify(scn: &Scn, x: &XS, a: &Act, res: &mut Res, flags: &mut HashSet<&'static str>) {
+    let mut hit = |res: &mut Res, k: &'static str| {
+        res.stat(&format!("transitions-{}", k));
+        flags.insert(k);
+    };
+    match a {
+        ActorModelAction::Deliver { src, dst, msg } => {
+            let d = usize::from(*dst);
+            let s = usize::from(*src);
+            match msg {
+                MsgWrapper::Deliver(q, m) => {
+                    let last = x.ghost[d].handed.iter().filter(|h| h.0 == s).count() as u64;
+                    if *q == last + 1 {
+                        if let Some(r) = scn.actors[d].rules.iter().find(|r| r.on == m.0 && r.from.map_or(true, |f| f == s)) {
+                            if !r.log && r.cmds.is_empty() {
+                                hit(res, "handed-but-ignored-by-the-wrapped-actor (no-op; still ack'ed and counted)");
+                            } else if !r.log {
+                                hit(res, "wrapped-state-borrowed-but-commands-emitted");
+                            }
+                            if r.cmds.iter().any(|c| matches!(c, Cmd::Send(..))) {
+                                hit(res, "wrapped-actor-sends-in-reaction");
+                            }
+                        }
+                    }
+                    if *q > last + 1 {
+                        hit(res, "reordering (Deliver overtook an earlier one: seq > last+1)");
+                    } else if *q <= last {
+                        hit(res, "duplicate-delivery (seq <= last: ack'ed again, not handed)");
+                    } else {
+                        hit(res, "in-order-delivery (handed over)");
+                    }
+                }
+                MsgWrapper::Ack(q) => {
+                    let dbg = format!("{:?}", &*x.st.actor_states[d]);
+                    let pa = nums(section(&dbg, "msgs_pending_ack"));
+                    if pa.chunks(3).any(|c| c[0] as usize == s && c[1] == *q) {
+                        hit(res, "ack (clears a pending message)");
+                    } else {
+                        hit(res, "duplicate-ack (nothing pending)");
+                    }
+                }
+            }
+        }
+        ActorModelAction::Drop(e) => match e.msg {
+            MsgWrapper::Deliver(..) => hit(res, "loss-of-Deliver"),
+            MsgWrapper::Ack(..) => hit(res, "loss-of-Ack"),
+        },
+        ActorModelAction::Timeout(..) => hit(res, "resend-timer"),
+        _ => hit(res, "other"),
+    }
+}
+
+// ------------------------------------------------------------------------------------------------
+// scenario generation
+// ------------------------------------------------------------------------------------------------
+
+fn s(d: usize, m: u8) -> Cmd {
+    Cmd::Send(d, m)
+}
+fn actor(start: Vec<Cmd>, rules: Vec<Rule>) -> Scr {
+    Scr { start, rules }
+}
+fn rule(on: u8, from: Option<usize>, log: bool, cmds: Vec<Cmd>) -> Rule {
+    Rule { on, from, log, cmds }
+}
+
+fn fixed_scenarios() -> Vec<Scn> {
+    let mut v = Vec::new();
+    let recv = || actor(vec![], vec![]);
+    // the module's own test scenario, on every network
+    for (kind, lossy) in [(Kind::Dup, true), (Kind::NonDup, true), (Kind::NonDup, false), (Kind::Ord, false), (Kind::Ord, true), (Kind::Dup, false)] {
+        v.push(Scn { kind, lossy, actors: vec![actor(vec![s(1, 42), s(1, 43)], vec![]), recv()], bound: 4 });
+    }
+    // three messages, reordering + duplication + loss
+    v.push(Scn { kind: Kind::Dup, lossy: true, actors: vec![actor(vec![s(1, 7), s(1, 8), s(1, 9)], vec![]), recv()], bound: 4 });
+    v.push(Scn { kind: Kind::NonDup, lossy: true, actors: vec![actor(vec![s(1, 7), s(1, 8), s(1, 9)], vec![]), recv()], bound: 5 });
+    // equal payloads
+    v.push(Scn { kind: Kind::Dup, lossy: true, actors: vec![actor(vec![s(1, 7), s(1, 7), s(1, 7)], vec![]), recv()], bound: 4 });
+    // the receiver ignores one message (no-op of the wrapped actor)
+    v.push(Scn { kind: Kind::Dup, lossy: true, actors: vec![actor(vec![s(1, 42), s(1, 43)], vec![]), actor(vec![], vec![rule(42, None, false, vec![])])], bound: 4 });
+    v.push(Scn { kind: Kind::NonDup, lossy: true, actors: vec![actor(vec![s(1, 42), s(1, 43), s(1, 44)], vec![]), actor(vec![], vec![rule(43, Some(0), false, vec![])])], bound: 4 });
+    v.push(Scn { kind: Kind::Ord, lossy: true, actors: vec![actor(vec![s(1, 42), s(1, 43)], vec![]), actor(vec![], vec![rule(43, None, false, vec![]), rule(42, Some(5), false, vec![])])], bound: 4 });
+    // replies: state left borrowed but commands emitted; and logged replies
+    v.push(Scn { kind: Kind::Dup, lossy: true, actors: vec![actor(vec![s(1, 1), s(1, 2)], vec![]), actor(vec![], vec![rule(1, None, false, vec![s(0, 11)]), rule(2, None, true, vec![s(0, 12)])])], bound: 4 });
+    v.push(Scn { kind: Kind::NonDup, lossy: false, actors: vec![actor(vec![s(1, 1)], vec![rule(11, None, true, vec![s(1, 21)])]), actor(vec![], vec![rule(1, None, true, vec![s(0, 11), s(0, 12)])])], bound: 5 });
+    // two peers, both directions
+    v.push(Scn { kind: Kind::Dup, lossy: true, actors: vec![actor(vec![s(1, 1), s(2, 2), s(1, 3)], vec![]), recv(), recv()], bound: 4 });
+    v.push(Scn { kind: Kind::NonDup, lossy: true, actors: vec![actor(vec![s(1, 1), s(2, 2)], vec![]), actor(vec![s(0, 3)], vec![]), actor(vec![s(0, 4), s(1, 5)], vec![])], bound: 4 });
+    v.push(Scn { kind: Kind::Dup, lossy: true, actors: vec![actor(vec![s(1, 1), s(1, 2)], vec![]), actor(vec![s(0, 3), s(0, 4)], vec![])], bound: 4 });
+    // a message to itself, a message to an actor that does not exist
+    v.push(Scn { kind: Kind::Dup, lossy: true, actors: vec![actor(vec![s(0, 5), s(1, 6), s(0, 7)], vec![]), recv()], bound: 4 });
+    v.push(Scn { kind: Kind::NonDup, lossy: true, actors: vec![actor(vec![s(3, 5), s(1, 6)], vec![]), recv()], bound: 4 });
+    // unsupported commands of the wrapped actor (todo!() in the link)
+    v.push(Scn { kind: Kind::Dup, lossy: true, actors: vec![actor(vec![s(1, 1), s(1, 2)], vec![]), actor(vec![], vec![rule(2, None, true, vec![s(0, 11), Cmd::Unsupported(0)])])], bound: 4 });
+    v.push(Scn { kind: Kind::NonDup, lossy: false, actors: vec![actor(vec![s(1, 1), Cmd::Unsupported(1)], vec![]), recv()], bound: 4 });
+    v.push(Scn { kind: Kind::Ord, lossy: false, actors: vec![actor(vec![s(1, 1)], vec![]), actor(vec![], vec![rule(1, None, false, vec![Cmd::Unsupported(2)])])], bound: 4 });
+    // four messages on the ordered network (resend order inside a flow is the hash map's)
+    v.push(Scn { kind: Kind::Ord, lossy: true, actors: vec![actor(vec![s(1, 1), s(1, 2), s(1, 3), s(1, 4)], vec![]), recv()], bound: 5 });
+    v
+}
+
+fn random_scenario(r: &mut Rng) -> Scn {
+    let n = if r.chance(3, 5) { 2 } else { 3 };
+    let kind = *r.pick(&[Kind::Dup, Kind::Dup, Kind::NonDup, Kind::NonDup, Kind::Ord]);
+    let lossy = r.chance(3, 4);
+    let mut actors: Vec<Scr> = (0..n).map(|_| Scr::default()).collect();
+    // 1..=4 start messages in total; actor 0 is always a sender
+    let total = 1 + r.below(4);
+    let peer = |r: &mut Rng, me: usize| -> usize {
+        match r.below(20) {
+            0 => me,    // to itself
+            1 => n + 1, // nobody there
+            _ => {
+                let mut p = r.below(n - 1);
+                if p >= me {
+                    p += 1;
+                }
+                p
+            }
+        }
+    };
+    let mut start_vals: Vec<u8> = Vec::new();
+    for k in 0..total {
+        let who = if k == 0 || r.chance(2, 3) { 0 } else { r.below(n) };
+        let m = if !start_vals.is_empty() && r.chance(1, 8) { *r.pick(&start_vals) } else { 1 + r.below(9) as u8 };
+        start_vals.push(m);
+        let d = peer(r, who);
+        actors[who].start.push(s(d, m));
+    }
+    if r.chance(1, 40) {
+        let who = r.below(n);
+        let at = r.below(actors[who].start.len() + 1);
+        actors[who].start.insert(at, Cmd::Unsupported(r.below(3) as u8));
+    }
+    // reactions: level 0 (start values) -> level 1 (10..19) -> level 2 (20..29) -> nothing; always terminates
+    let mut lvl1: Vec<u8> = Vec::new();
+    for i in 0..n {
+        let nrules = r.below(3);
+        for _ in 0..nrules {
+            let on = *r.pick(&start_vals);
+            let from = if r.chance(1, 4) { Some(r.below(n)) } else { None };
+            let log = r.chance(2, 3);
+            let mut cmds = Vec::new();
+            if r.chance(1, 2) {
+                for _ in 0..(1 + r.below(2)) {
+                    let m = 10 + r.below(10) as u8;
+                    lvl1.push(m);
+                    let d = if r.chance(1, 2) { r.below(n) } else { peer(r, i) };
+                    cmds.push(s(d, m));
+                }
+            }
+            if r.chance(1, 30) {
+                cmds.push(Cmd::Unsupported(r.below(3) as u8));
+            }
+            actors[i].rules.push(rule(on, from, log, cmds));
+        }
+    }
+    if !lvl1.is_empty() {
+        for i in 0..n {
+            if r.chance(1, 3) {
+                let on = *r.pick(&lvl1);
+                let log = r.chance(1, 2);
+                let cmds = if r.chance(1, 3) { vec![s(peer(r, i), 20 + r.below(10) as u8)] } else { vec![] };
+                actors[i].rules.push(rule(on, None, log, cmds));
+            }
+        }
+    }
+    let bound = match r.below(6) {
+        0 => 3,
+        1 | 2 => 5,
+        _ => 4,
+    };
+    // the initial network must be inside the boundary, or nothing is explored
+    let init_len: usize = actors.iter().map(|a| a.start.iter().filter(|c| matches!(c, Cmd::Send(..))).count()).sum();
+    Scn { kind, lossy, actors, bound: bound.max(init_len + 1) }
+}
+
 fn main() {
-    let out = Out::new();
+    quiet_panics();
+    let mut out = Out::new();
+    let th = thorough();
+    let mut r = Rng::new(seed());
+    let n_random = arg_u64("--scenarios", if th { 1480 } else { 36 }) as usize;
+    let cap = arg_u64("--cap", if th { 1200 } else { 700 }) as usize;
+    let mut scns = fixed_scenarios();
+    for _ in 0..n_random {
+        scns.push(random_scenario(&mut r));
+    }
+    // equal scenario texts would only repeat the same requests
+    let mut seen_scn: HashSet<String> = HashSet::new();
+    scns.retain(|s| seen_scn.insert(format!("{} {}", s.sx(), s.bound)));
+    let results: Vec<Mutex<Option<Res>>> = scns.iter().map(|_| Mutex::new(None)).collect();
+    let next = AtomicUsize::new(0);
+    let threads = std::thread::available_parallelism().map(|x| x.get()).unwrap_or(4).min(16);
+    std::thread::scope(|sc| {
+        for _ in 0..threads {
+            sc.spawn(|| loop {
+                let i = next.fetch_add(1, Ordering::SeqCst);
+                if i >= scns.len() {
+                    break;
+                }
+                let res = catch_unwind(AssertUnwindSafe(|| explore(&scns[i], cap)));
+                let res = match res {
+                    Ok(r) => r,
+                    Err(e) => {
+                        let mut r = Res::default();
+                        let msg = e.downcast_ref::<String>().cloned().or_else(|| e.downcast_ref::<&str>().map(|s| s.to_string())).unwrap_or_default();
+                        r.v.push(("harness-panic".into(), format!("{} : {}", scns[i].sx(), msg)));
+                        r
+                    }
+                };
+                *results[i].lock().unwrap() = Some(res);
+            });
+        }
+    });
+    out.max_samples = 10;
+    for (i, cell) in results.iter().enumerate() {
+        let res = cell.lock().unwrap().take().expect("scenario result");
+        for (req, exp) in res.m {
+            out.m(&req, &exp);
+        }
+        for o in res.o {
+            out.o(&o);
+        }
+        for (k, t) in res.v {
+            out.v(&k, &t);
+        }
+        for (k, n) in res.stats {
+            out.stat_n(&k, n);
+        }
+        for d in res.distinct {
+            out.distinct(&(i, d));
+        }
+        if let Some(sm) = res.sample {
+            if i < 3 || i % 7 == 0 {
+                out.sample(&sm);
+            }
+        }
+    }
     out.finish();
 }
